@@ -1326,6 +1326,8 @@ class Declaration(Node):
         use_attrs = kwargs.get("attrs", True)
         if self.const:
             decl.append("const ")
+        if self.volatile:
+            decl.append("volatile ")
 
         if self.attrs["_destructor"]:
             decl.append("~")
@@ -1445,6 +1447,8 @@ class Declaration(Node):
         if self.const:
             const_index = len(decl)
             decl.append("const ")
+        if self.volatile:
+            decl.append("volatile ")
 
         if with_template_args and self.template_arguments:
             # Use template arguments from declaration
